@@ -336,7 +336,7 @@ func TestVerif_C07(t *testing.T) {
 	if !vkPatched("rand-source") {
 		k.Skip("forced random draws (stage patch rand-source not applicable to this tree)")
 	}
-	verifkit.Rapid(k, t, "solicitation-histories", k.N(2500, 100000), c07Gen, prop)
+	verifkit.Rapid(k, t, "solicitation-histories", k.N(2500, 400000), c07Gen, prop)
 	if k.ReplayOnly() {
 		return
 	}
